@@ -51,7 +51,9 @@ class Partial(Generic[C_co]):
 
     def _check_signature(self):
         args, kwargs = self.args, self.kwargs
-        if "target" in kwargs or (args and isinstance(args[0], _pool.Pool)):
+        if "target" in kwargs or (
+            not self.leaf and args and isinstance(args[0], _pool.Pool)
+        ):
             raise TypeError(
                 "%s[%s] cannot bind 'target' by calling. "
                 "Use `this >> target` instead." % (self.__class__.__name__, self.ctor)
